@@ -57,4 +57,16 @@ def jobs(tier, seed):
     # the truncation rule (TC on UDP => retried over TCP unless IGNTC) lives in process_answer: same jobs as C05
     J += mjobs.answer_jobs(tier, owner=False)
     J += mjobs.write_event_jobs(tier)
+    # what is queued behind an earlier frame: ares_dns_write_buf_tcp() appends exactly prefix + message, and leaves the
+    # queue exactly as it was when serialisation fails half-way (a stray prefix would be sent as an empty frame).
+    # Same harness as C03's framing obligation, run here so that this check is self-contained.
+    import importlib.util
+    p03 = os.path.join(os.path.dirname(os.path.abspath(__file__)), "..", "C03", "jobs.py")
+    spec = importlib.util.spec_from_file_location("jobs_C03_reuse20", p03)
+    m03 = importlib.util.module_from_spec(spec); spec.loader.exec_module(m03)
+    for j in m03.jobs(tier, 0):
+        if j["name"].startswith("framing_placement_fail") or j["name"] in ("framing_placement_CNAME_P5", "framing_placement_SOA_P5"):
+            j = dict(j); j["harness"] = "../C03/" + j["harness"]
+            j["support"] = [("../C03/" + x if x == "c03_mem.c" else x) for x in j.get("support", [])]
+            J.append(j)
     return J
